@@ -678,8 +678,10 @@ def settle_monus(t, bounds):
 
 def carried_keys(ls):
     """carried places of a loop that actually change: unit accumulators of for_each / fold-to-() and other identity-carried
-    places (next is the loop-head value itself) are bookkeeping of the iterator form, not state"""
-    return [k for k in ls.lh if not (isinstance(ls.next.get(k), T.Tm) and ls.next[k] is ls.lh[k])]
+    places (next is the loop-head value itself) and closed induction counters (a hand-advanced iterator's position) are
+    bookkeeping of the iterator form, not state"""
+    ind = getattr(ls, 'induction', ())
+    return [k for k in ls.lh if not (isinstance(ls.next.get(k), T.Tm) and ls.next[k] is ls.lh[k]) and k not in ind]
 
 
 def strip_eff(t):
